@@ -235,11 +235,17 @@ def _blame(pol, cl, cr):
 # -- left-hand hashes that take keys through a YAML merge key ----------------
 MK_LEFT = ("base: &b\n  k: %s\n  s: 1\nu:\n  <<: *b\n  own: 1\n"
            "w:\n  <<: *b\nz: 0\n")
+# the same with u overriding the inherited key s by a value of its own
+MK_LEFT_OVERRIDE = MK_LEFT.replace("  own: 1\n", "  s: 8\n  own: 1\n")
 MK_LEFT_VALUES = ["{x: 1}", "[1]", "[{id: 1, v: 1}]", "5", "!!set {m}"]
 MK_RIGHTS = ["u: {k: {y: 2}}\n", "u: {k: {x: 9}}\n", "u: {k: [2]}\n",
              "u: {k: [{id: 1, v: 2}]}\n", "u: {k: 7}\n", "u: {own: 2}\n",
              "u: {new: 1}\n", "u: {s: 3}\n", "u: {k: !!set {n}}\n",
              "w: {k: {y: 2}}\nu: {own: 3}\n"]
+
+
+def is_map_like(node):
+    return hasattr(node, "items")
 
 
 def check_mergekey_frame(ltext, rtext, pol, res):
@@ -263,6 +269,12 @@ def check_mergekey_frame(ltext, rtext, pol, res):
     named = [str(k) for k in rdoc]
     frame = [k for k in ("base", "u", "w", "z") if k not in named]
     before = {k: canon(ldoc[k]) for k in frame}
+    # own keys of u that the right-hand document does not name
+    own_u = {}
+    if "u" in named and is_map_like(rdoc["u"]):
+        own_u = {k: canon(ldoc["u"][k]) for k in ("own", "s")
+                 if k in ldoc["u"] and k not in rdoc["u"]
+                 and (k == "own" or "s: 8" in ltext)}
     res.evaluations += 1
     case = {"lhs": ltext, "rhs": rtext, "policy": pol.as_dict(),
             "mergekey": True}
@@ -291,6 +303,15 @@ def check_mergekey_frame(ltext, rtext, pol, res):
     except Exception:
         res.label("mergekey:result-does-not-dump")
     for view, data in views:
+        for k, was in own_u.items():
+            now = canon(data["u"][k]) if "u" in data and k in data["u"] \
+                else None
+            if now != was:
+                res.fail({"clause": "unnamed-left-content-keeps-its-value",
+                          "shape": "own-key-beside-merge-key:%s" % k,
+                          "view": view}, case, "u.%s was %s is %s" % (
+                              k, json.dumps(was), json.dumps(now)))
+                return
         for k in frame:
             now = canon(data[k]) if k in data else None
             if now != before[k]:
@@ -354,6 +375,10 @@ def run_shard(shard):
                         return res
                     check_mergekey_frame(MK_LEFT % kv, rt,
                                          policy_for(j, with_rules=False), res)
+                    if j % 9 == 0:
+                        check_mergekey_frame(MK_LEFT_OVERRIDE % kv, rt,
+                                             policy_for(j, with_rules=False),
+                                             res)
         return res
     if shard["kind"] == "fam":
         texts = [gdocs.emit(s) for s in fam]
